@@ -106,7 +106,7 @@ QuiesceErrs(cfg, m, post) ==
 
 \* L0 verdicts of one call, as checks in the L1 format
 MemChecks(cfg, pre, post, ln) ==
-  IF Fatal(ln) \/ ln.evtrunc THEN {}
+  IF Fatal(ln) \/ ln.evtrunc \/ Truncated(pre) \/ Truncated(post) THEN {}
   ELSE LET m    == RunEvs(cfg, MemOf(cfg, pre), ln.evs, 1)
            errs == m.errs \cup QuiesceErrs(cfg, m, post)
            has(S) == \E j \in 1..Len(ln.evs) : ln.evs[j][1] \in S
